@@ -1636,6 +1636,39 @@ fn goal_case(run: &Run, case_seed: u64) -> Option<String> {
     let info = CaseInfo { case_seed, kind, doc: &doc, spec_label: &spec.label, objectives };
     let class = if spec.single_layer { "single-layer" } else { "multi-layer" };
     let nontrivial = check_goal(run, &info, class, "main", problem.goal.as_ref(), spec.single_layer, Some(&spec.types), &pool);
+    // the value compared is a function of the solution, not of where it lives or of what was asked before: two solutions with
+    // the same number of tours change places in memory between two questions (what sorting a population does)
+    {
+        let goal = problem.goal.as_ref();
+        let pairs: Vec<(usize, usize)> = (0..pool.len())
+            .flat_map(|i| (i + 1..pool.len()).map(move |j| (i, j)))
+            .filter(|(i, j)| pool[*i].ctx.solution.routes.len() == pool[*j].ctx.solution.routes.len())
+            .take(6)
+            .collect();
+        for (i, j) in pairs {
+            let mut slots = vec![pool[i].ctx.deep_copy(), pool[j].ctx.deep_copy()];
+            let fit = |c: &InsertionContext| goal.fitness(c).collect::<Vec<f64>>();
+            let (f0, f1) = (fit(&slots[0]), fit(&slots[1]));
+            // last question went to slot 1; now slot 1 holds the other solution
+            slots.swap(0, 1);
+            let (g1, g0) = (fit(&slots[1]), fit(&slots[0]));
+            let ord_before = goal.total_order(&slots[1], &slots[0]);
+            slots.swap(0, 1);
+            let ord_after = goal.total_order(&slots[0], &slots[1]);
+            run.eval();
+            run.observe("goal.fitness", "asked again after two solutions changed places in memory");
+            let same = |a: &[f64], b: &[f64]| a.len() == b.len() && a.iter().zip(b.iter()).all(|(x, y)| x.to_bits() == y.to_bits());
+            if !same(&g1, &f0) || !same(&g0, &f1) || ord_before != ord_after {
+                run.violation(
+                    &format!("C09|goal|{class}|fitness-follows-the-address-not-the-solution"),
+                    &format!("solutions {i} and {j} of the pool swapped in memory: fitness {f0:?} / {f1:?} before, {g1:?} / {g0:?} after; total_order {ord_before:?} before the second swap, {ord_after:?} after it"),
+                    json!({"part": "goal", "case_seed": case_seed, "kind": kind, "objectives": info.objectives, "problem": doc, "pool_indices": [i, j],
+                        "fitness_before": [f0, f1], "fitness_after_swap": [g1, g0], "orders": [format!("{ord_before:?}"), format!("{ord_after:?}")]}),
+                );
+                break;
+            }
+        }
+    }
     let alts = alternative_goals(problem.goal.as_ref());
     run.observe("goal.alternatives-per-problem", &format!("{}", alts.len()));
     for (k, alt) in alts.iter().enumerate() {
